@@ -318,5 +318,11 @@ class DefaultTransfer(Transfer):
             in_vec.set_val(out_vec.asarray()[self._out_inds.flat], self._in_inds)
 
         else:  # rev
-            out_vec.iadd(np.bincount(self._out_inds, in_vec._get_data()[self._in_inds],
-                                     minlength=out_vec._data.size))
+            vals = in_vec._get_data()[self._in_inds]
+            size = out_vec._data.size
+            if np.iscomplexobj(vals):
+                # bincount does not take complex weights
+                out_vec.iadd(np.bincount(self._out_inds, vals.real, minlength=size) +
+                             1j * np.bincount(self._out_inds, vals.imag, minlength=size))
+            else:
+                out_vec.iadd(np.bincount(self._out_inds, vals, minlength=size))
